@@ -22,11 +22,15 @@ def run_lifecycle(pid, tier, seed, build, mons, trig, rule, model_ok=True, check
         header = ctx.header()
         model, impl, extras = run_both(header, hs, work, impl_only=not model_ok)
         opsof = dict(hs)
+        # corpus first-class: minimised witnesses of earlier findings, self-contained files
+        corp = run_corpus(pid, work, model_ok)
+        extras += corp['extras']
         divs = []
         if model_ok and check_divergence:
             for (h, idx, ml, il) in diff_traces(model, impl):
                 divs.append((h, idx, ml, il, opsof[h], header))
-        fails = []
+        fails = list(corp['fails'])
+        divs += corp['divs']
         distinct = set()
         evals = 0
         dist = collections.Counter()
@@ -61,15 +65,62 @@ def run_lifecycle(pid, tier, seed, build, mons, trig, rule, model_ok=True, check
         shutil.rmtree(work, ignore_errors=True)
 
 
-def replay(pid, path):
-    """re-executes a replay op file on model and implementation and re-judges it"""
+class MiniCtx:
+    """context rebuilt from a self-contained op file (for monitors)"""
+
+    def __init__(self, header):
+        self.blobs, self.sigs, self.p = {}, [], {}
+        for l in header:
+            t = l.split()
+            if t[0] == 'blob':
+                self.blobs[t[1]] = b'' if t[2] == 'e' else bytes.fromhex(t[2])
+            if t[0] == 'sig':
+                self.sigs.append((unhx(t[1]), unhx(t[2]), unhx(t[3])))
+        import hashlib
+        for k, v in self.blobs.items():
+            if k.startswith('new'):
+                self.p[k[3:]] = dict(new=v, dl='dl' + k[3:], hash=hashlib.sha256(v).hexdigest(), tag=art_tag(v))
+
+
+def split_opfile(path):
     lines = [l for l in open(path).read().splitlines() if l and not l.startswith('#')]
-    if path.endswith('.txt'):
-        print(open(path).read())
-        return 1
     header = [l for l in lines if not l.startswith('op ') and not l.startswith('history ')]
     name = [l for l in lines if l.startswith('history ')][0].split()[1]
     ops = [l for l in lines if l.startswith('op ')]
+    return header, name, ops
+
+
+def run_corpus(pid, work, model_ok):
+    res = dict(fails=[], divs=[], extras=[])
+    cdir = os.path.join(ROOT, 'corpus')
+    files = sorted(f for f in os.listdir(cdir) if f.endswith('.ops')) if os.path.isdir(cdir) else []
+    mons = PROPS[pid].get('mons', [])
+    for f in files:
+        header, name, ops = split_opfile(os.path.join(cdir, f))
+        model, impl, extras = run_both(header, [(name, ops)], os.path.join(work, 'corpus'), impl_only=not model_ok)
+        res['extras'] += extras
+        if model_ok:
+            for (h, idx, ml, il) in diff_traces(model, impl):
+                res['divs'].append((h, idx, ml, il, ops, header))
+        tr = impl.get(name)
+        if tr is None or len(tr) != len(ops):
+            res['extras'].append('corpus %s: no/short implementation trace' % f)
+            continue
+        c = MiniCtx(header)
+        pops = [gen.parse_op(o) for o in ops]
+        sts = [parse_line(l) for l in tr]
+        for m in mons:
+            for (idx, msg) in m(c, pops, sts):
+                res['fails'].append((name, idx, msg, ops, header))
+    return res
+
+
+def replay(pid, path):
+    """re-executes a replay op file on model and implementation and re-judges it"""
+    if path.endswith('.txt'):
+        print(open(path).read())
+        return 1
+    header, name, ops = split_opfile(path)
     work = os.path.join(CACHE, 'replay-%d' % os.getpid())
     model, impl, extras = run_both(header, [(name, ops)], work)
     shutil.rmtree(work, ignore_errors=True)
@@ -82,18 +133,7 @@ def replay(pid, path):
     if d:
         print('DIVERGENCE at op %d' % d[0][1])
         rc = 1
-
-    class C:  # minimal ctx for monitors
-        pass
-    c = C()
-    c.blobs = {}
-    c.sigs = []
-    for l in header:
-        t = l.split()
-        if t[0] == 'blob':
-            c.blobs[t[1]] = b'' if t[2] == 'e' else bytes.fromhex(t[2])
-        if t[0] == 'sig':
-            c.sigs.append((unhx(t[1]), unhx(t[2]), unhx(t[3])))
+    c = MiniCtx(header)
     pops = [gen.parse_op(o) for o in ops]
     sts = [parse_line(l) for l in impl.get(name, [])]
     for m in PROPS[pid].get('mons', []):
@@ -395,7 +435,7 @@ def build_C17(ctx, tier, rnd):
 
 
 def build_C18(ctx, tier, rnd):
-    return build_life(ctx, tier, rnd, labels=['c', 'q', 's', 'ok', 'fail', 'R', 'u1', 'u2', 'u3', 'rb1', 'rb2', 'ck2'])
+    return build_life(ctx, tier, rnd, labels=['c', 'q', 's', 'ok', 'fail', 'R', 'u1', 'u2', 'u3', 'rb1', 'rb5', 'ck2'])
 
 
 def build_C19(ctx, tier, rnd):
